@@ -273,6 +273,7 @@ pub fn op_name(op: &Op) -> String {
         Op::Concurrent(c) => format!("concurrent({} clients)", c.len()),
         Op::HttpQuery { endpoint, q } => format!("http {:?} {}", endpoint, rt::core::truncate(&q.sql, 60)),
         Op::HttpRawQuery { endpoint, sql } => format!("http {:?} raw {}", endpoint, rt::core::truncate(sql, 60)),
+        Op::HttpMulti { endpoint, sqls } => format!("http {:?} multi x{} {}", endpoint, sqls.len(), rt::core::truncate(&sqls.join(" ;; "), 60)),
         Op::HttpColumns { table, .. } => format!("http /columns {table:?}"),
     }
 }
